@@ -733,9 +733,13 @@ func (w *c15World) checkSub(s *c15Sub, got []string, phase string) bool {
 			kind = "missing-value"
 		}
 		snap := w.etcd.snapshot(s.svc)
-		w.violate(fmt.Sprintf("C15:diverged:%s:%s:%s", phase, kind, s.mode()),
-			"subscriber #%d (%s, key %s) at quiescence: Values()=%v; registry keys=%v; values that must be listed=%v, may be listed=%v; listed without a live key=%v, live but not listed=%v",
-			s.id, s.mode(), s.svc, c15Sorted(gs), snap, c15Sorted(must), c15Sorted(may), stale, missing)
+		cls := "plain"
+		if s.excl {
+			cls = "exclusive"
+		}
+		w.violate(fmt.Sprintf("C15:diverged:%s:%s", phase, cls),
+			"%s: subscriber #%d (%s, key %s) at quiescence: Values()=%v; registry keys=%v; values that must be listed=%v, may be listed=%v; listed without a live key=%v, live but not listed=%v",
+			kind, s.id, s.mode(), s.svc, c15Sorted(gs), snap, c15Sorted(must), c15Sorted(may), stale, missing)
 		return false
 	}
 	if !c15Equal(must, may) {
